@@ -84,10 +84,15 @@ def check_wrapper():
                 raise self.fail
 
     for exc, handled in [(None, False), (asyncio.CancelledError(), False), (KeyboardInterrupt(), False), (UnrecoverableWorkflowException("u"), False),
-                         (WorkflowExecutionException("w"), True), (FailureHandlingException("f"), True), (ValueError("v"), True)]:
+                         (WorkflowExecutionException("w"), True), (FailureHandlingException("f"), False), (ValueError("v"), True)]:
         for rec_fail in [None, FailureHandlingException("rf"), WorkflowExecutionException("rw")]:
             fm = FM(rec_fail)
-            step = Step.__new__(Step)
+            class _S(Step):
+                async def run(self): ...
+                async def terminate(self, status): ...
+                async def restore(self, on_tokens): ...
+
+            step = _S.__new__(_S)
             step.workflow = SimpleNamespace(context=SimpleNamespace(failure_manager=fm))
             job = Job.__new__(Job)
 
@@ -96,8 +101,11 @@ def check_wrapper():
                 if exc is not None:
                     raise exc
 
+            coro = f(job, step)
             try:
-                asyncio.run(f(job, step))
+                coro.send(None)  # nothing inside suspends: one step runs the wrapper to completion
+                out = "suspended"
+            except StopIteration:
                 out = None
             except BaseException as r:
                 out = r
@@ -121,7 +129,7 @@ def replay(path):
 def crosscheck(n):
     bad = [x for x in (check_update(), check_get_request(), check_dummy(), check_wrapper()) if x]
     print(json.dumps({"inputs": 4, "native_contract_failures": len(bad), "samples": bad[:2]}))
-    sys.exit(0)
+    sys.exit(1 if bad else 0)
 
 
 main({"replay": replay, "crosscheck": crosscheck})
